@@ -710,7 +710,7 @@ class merge_plan:
                         frame.current_pkg.repo.livefs
                         and cur_frame.current_pkg.repo.livefs
                     ):
-                        return None
+                        return self._satisfied_by_cycle(cur_frame, frame)
                     if cur_frame.current_pkg.repo.livefs:
                         return True
                     elif (
@@ -726,7 +726,7 @@ class merge_plan:
                 else:
                     # should be doing a full walk of the cycle here, seeing
                     # if an rdep becomes a dep.
-                    return None
+                    return self._satisfied_by_cycle(cur_frame, frame)
                 # portage::gentoo -> rysnc -> portage::vdb; let it process it.
                 return True
             # only need to look at the most recent match; reasoning is simple,
@@ -745,6 +745,15 @@ class merge_plan:
             mode=cur_frame.mode,
             drop_cycles=cur_frame.drop_cycles,
         )
+
+    def _satisfied_by_cycle(self, cur_frame, frame):
+        """The atom of cur_frame is satisfied by the pkg being resolved in frame.
+
+        That pkg isn't in the plan yet; leave a note of what it was selected
+        for, see :meth:`_breaks_plan`.
+        """
+        state.add_backref_op(cur_frame.choices, frame.current_pkg).apply(self.state)
+        return None
 
     def process_dependencies_and_blocks(
         self, stack, choices, attr, atom=None, depth=None
@@ -902,14 +911,15 @@ class merge_plan:
                         "internal weirdness- vdb restrict matches "
                         "but current doesn't. bailing- run w/ --debug"
                     )
-                conflicts = state.replace_op(choices, choices.current_pkg).apply(
-                    self.state
-                )
-                if not conflicts:
-                    self._dprint(
-                        "replacing vdb entry for '%s' with pkg '%s'",
-                        (atom, choices.current_pkg),
-                    )
+                if not self._breaks_plan(conflicts, [choices.current_pkg]):
+                    conflicts = state.replace_op(
+                        choices, choices.current_pkg
+                    ).apply(self.state)
+                    if not conflicts:
+                        self._dprint(
+                            "replacing vdb entry for '%s' with pkg '%s'",
+                            (atom, choices.current_pkg),
+                        )
 
             else:
                 try_rematch = True
@@ -919,12 +929,24 @@ class merge_plan:
                 if l2 == [choices.current_pkg]:
                     # stop resolution.
                     conflicts = False
-                elif l2:
+                elif l2 and not self._breaks_plan([choices.current_pkg], l2):
                     # potentially need to do some form of cleanup here.
                     conflicts = False
         else:
             conflicts = None
         return conflicts
+
+    def _breaks_plan(self, dropped, instead):
+        """Check if pkgs were selected for a restriction that what takes their place doesn't satisfy."""
+        for op in self.state.plan:
+            if (
+                isinstance(op, (state.add_op, state.add_backref_op))
+                and not op.force
+                and any(op.pkg is x for x in dropped)
+                and not any(map(op.choices.atom.match, instead))
+            ):
+                return True
+        return False
 
     def generate_mangled_blocker(self, choices, blocker):
         """converts a blocker into a "cannot block ourself" block"""
